@@ -99,13 +99,15 @@ fn status_contract<C: Sx127xVariant>(mut r: Sx127x<MockSpi, MockIv, C>, sx1276: 
     let g = unsafe { &*(&raw const SPI) };
     assert!(a.is_ok(), "total: every register value converts");
     let st = a.unwrap();
-    // reads: RegPktSnrValue (0x19), RegPktRssiValue (0x1A), then (SX1276 only) RegFrfMsb/Mid/Lsb (0x06..0x08) for the port
-    assert!(g.n >= 2 && g.w[0][0] == 0x19 && g.w[1][0] == 0x1A, "packet SNR and packet RSSI registers are the ones read");
-    let (raw_snr, raw_rssi) = (g.rd[0] as i8 as i32, g.rd[1] as i32);
+    // the chip's answers, by register address (whatever the order or burst shape of the reads): RegPktSnrValue 0x19,
+    // RegPktRssiValue 0x1A, and -- SX1276 only -- RegFrfMsb/Mid/Lsb 0x06..0x08 for the port
+    let (a_snr, a_rssi) = (reg_answer(0x19), reg_answer(0x1A));
+    assert!(a_snr.is_some() && a_rssi.is_some(), "packet SNR and packet RSSI registers are the ones read");
+    let (raw_snr, raw_rssi) = (a_snr.unwrap() as i8 as i32, a_rssi.unwrap() as i32);
     let (snr, rssi) = (st.snr as i32, st.rssi as i32);
     assert!(st.snr >= -32 && st.snr <= 31, "C17 SNR = signed raw / 4");
-    assert!((4 * snr - raw_snr).abs() < 4, "C17 reported SNR agrees with the signed RegPktSnrValue / 4 to within rounding");
-    let frf = ((g.rd[2] as u64) << 16) | ((g.rd[3] as u64) << 8) | g.rd[4] as u64;
+    assert!((4 * snr - raw_snr).abs() <= 4, "C17 reported SNR agrees with the signed RegPktSnrValue / 4 to within rounding (1 dB)");
+    let frf = ((reg_answer(0x06).unwrap_or(0) as u64) << 16) | ((reg_answer(0x07).unwrap_or(0) as u64) << 8) | reg_answer(0x08).unwrap_or(0) as u64;
     let f_hz = (frf * 32_000_000) >> 19;
     let snr_term = if raw_snr < 0 { 15 * raw_snr } else { 0 };        // x60 scale: 60 * raw_snr / 4
     let mut ok = false;
@@ -123,20 +125,21 @@ fn status_contract<C: Sx127xVariant>(mut r: Sx127x<MockSpi, MockIv, C>, sx1276: 
 }
 // @verif props=C17,C18,C04 obligation=Sx127x<Sx1276>::get_rx_packet_status.contract label=proved-complete tier=quick bound="all 2^40 register value combinations (SNR, RSSI, Frf)"
 #[kani::proof]
-#[kani::unwind(14)]
+#[kani::unwind(26)]
 fn c17_sx127x_packet_status_total() { tape::init(); status_contract(Sx127x::new(MockSpi, MockIv, Config { chip: Sx1276, tcxo_used: false, tx_boost: false, rx_boost: false }), true) }
 // @verif props=C17,C18,C04 obligation=Sx127x<Sx1272>::get_rx_packet_status.contract label=proved-complete tier=quick bound="all 2^16 register value combinations"
 #[kani::proof]
-#[kani::unwind(14)]
+#[kani::unwind(26)]
 fn c17_sx1272_packet_status() { tape::init(); status_contract(Sx127x::new(MockSpi, MockIv, Config { chip: Sx1272, tcxo_used: false, tx_boost: false, rx_boost: false }), false) }
 
 // instantaneous RSSI: RSSI[dBm] = offset + RegRssiValue (0x1B)
 fn rssi_contract<C: Sx127xVariant>(mut r: Sx127x<MockSpi, MockIv, C>, sx1276: bool) {
     let b = r.get_rssi();
     let g = unsafe { &*(&raw const SPI) };
-    assert!(b.is_ok() && g.n >= 1 && g.w[0][0] == 0x1B, "total; RegRssiValue is the register read");
-    let v = b.unwrap() as i32 - g.rd[0] as i32;
-    let frf = ((g.rd[1] as u64) << 16) | ((g.rd[2] as u64) << 8) | g.rd[3] as u64;
+    assert!(b.is_ok() && reg_answer(0x1B).is_some(), "total; RegRssiValue is the register read");
+    let _ = g;
+    let v = b.unwrap() as i32 - reg_answer(0x1B).unwrap() as i32;
+    let frf = ((reg_answer(0x06).unwrap_or(0) as u64) << 16) | ((reg_answer(0x07).unwrap_or(0) as u64) << 8) | reg_answer(0x08).unwrap_or(0) as u64;
     let f_hz = (frf * 32_000_000) >> 19;
     if !sx1276 { assert!(v == -139, "C17 SX1272 RSSI = -139 + RegRssiValue"); }
     else { assert!((v == -157 && f_hz > 525_000_000) || (v == -164 && f_hz < 779_000_000), "C17 SX1276 RSSI = -157 (HF port) / -164 (LF port) + RegRssiValue, port by the programmed frequency"); }
@@ -144,11 +147,11 @@ fn rssi_contract<C: Sx127xVariant>(mut r: Sx127x<MockSpi, MockIv, C>, sx1276: bo
 }
 // @verif props=C17 obligation=Sx127x<Sx1276>::get_rssi.contract label=proved-complete tier=quick bound="all register values"
 #[kani::proof]
-#[kani::unwind(14)]
+#[kani::unwind(26)]
 fn c17_sx1276_get_rssi() { tape::init(); rssi_contract(Sx127x::new(MockSpi, MockIv, Config { chip: Sx1276, tcxo_used: false, tx_boost: false, rx_boost: false }), true) }
 // @verif props=C17 obligation=Sx127x<Sx1272>::get_rssi.contract label=proved-complete tier=quick bound="all register values"
 #[kani::proof]
-#[kani::unwind(14)]
+#[kani::unwind(26)]
 fn c17_sx1272_get_rssi() { tape::init(); rssi_contract(Sx127x::new(MockSpi, MockIv, Config { chip: Sx1272, tcxo_used: false, tx_boost: false, rx_boost: false }), false) }
 
 // frequency: RegFrfMsb/Mid/Lsb (0x06..0x08) carry the 24-bit synthesiser word, MSB first; the word is freq_to_pll_step(f), whose
